@@ -23,7 +23,7 @@ CLAIM = dict(cat="proof", design="§3 C04, §8 D8/O1",
         "(Riemann parameter := C05's HLLC model) equals the real Hydro::do_flux_calculation / do_ghost_flux_calculation (3 boundary kinds) / "
         "HydroDensitySubGrid::update_conserved_variables / Hydro::set_primitive_variables bit for bit on random cell pairs; (3) oracle on the real code: per-pair exact antisymmetry, "
         "and real subgrids with the real sweeps driven in phase order on 6 layouts x 4 initial states (smooth, discontinuous, near-vacuum, random) x anisotropic cells: totals drift, "
-        "min mass/energy, finiteness, bit-identical repetition.",
+        "min mass/energy, finiteness, bit-identical repetition. Task-table tie (shared with C07, theorem C07_phases_ordered): on every run the REAL hydro task tables of several layouts are dumped and every pair of tasks in consecutive phases that touch a common subgrid must be connected by a dependency path; otherwise a legal order of the REAL task objects that starts the later task first is executed and reported as the failing history.",
    note="Trusted: Coq kernel + standard real-number axioms (sig_forall_dec, sig_not_dec, functional_extensionality_dep, classic); Coq.Floats specification axioms for the binary64 clamp lemma; "
         "extraction (ExtrOcamlBasic/ExtrOCamlFloats) + OCaml driver for the correspondences; glibc pow. C05 ties the HLLC model to the real solver. "
         "PARTIAL: (a) C04_nonnegative_after_update_binary64_partial: on binary64 what leaves the clamps is >= 0 unless it is NaN; finiteness for all float inputs is NOT claimed "
@@ -485,8 +485,17 @@ def step_evidence(ck, d, groups, compare_layouts=False, tol=1e-12):
 
 
 # ---------------------------------------------------------------------------------------------------------------
+def _deps(ck):
+    import hydro_deps
+    fs = hydro_deps.phase_order_findings(ck)
+    for f in (fs or [])[:2]:
+        ck.violation('C04: the hydro task table of the real code does not order the phases: %s of subgrid %d can start before %s (which touches the same subgrid) has run - layout %s, legal order %s on the REAL task objects: the conserved update / flux exchange of that subgrid is applied on stale or partial accumulators, so totals are not conserved' % (f["t2"], f["subgrid"], f["t1"], tuple(f["layout"]), f["order"]),
+                     {"hydro_task_table": f}, key={"kind": "task_table_phase_order"})
+
+
 def run(ck):
     ck.prove()
+    _deps(ck)
     d = ck.scratch
     ok = build(ck, d)
     cov = ck.coverage
@@ -536,6 +545,12 @@ def run(ck):
 
 
 def replay(ck, rp):
+    if "hydro_task_table" in rp.get("replay", {}):
+        import hydro_deps
+        f = rp["replay"]["hydro_task_table"]
+        fs = hydro_deps.phase_order_findings(ck, [tuple(f["layout"])])
+        print("REPLAY:", ("the real task table still lets %s start before %s: %r" % (fs[0]["t2"], fs[0]["t1"], fs[0]["observed"])) if fs else "property holds on this input")
+        return 1 if fs else 0
     d = ck.scratch
     r = rp["replay"]
     kind = r.get("kind")
